@@ -6,7 +6,7 @@ CONSTANTS
   MaxNodes = 3
   MaxDepth = 3
   Kinds = {"text", "expr", "el", "void"}
-  InlineNames = {"span"}
+  InlineNames = {"span", "x-tag"}
   BlockNames = {"div"}
   VoidNames = {"img", "br", "wbr"}
   AttrChoices <- AttrChoicesNone
